@@ -505,6 +505,11 @@ func (e *Exec) assumeWF(s *State, v Value, param bool) {
 	}
 	if isFloat(v.T) {
 		e.fl.addPoint(e, v.S[0], v.S[1])
+		if !strings.HasPrefix(v.S[1], "(") {
+			// the negation of a representable number is representable
+			e.fl.addPoint(e, v.S[0], "(- "+v.S[1]+")")
+		}
+		e.fl.addInput(e, v.S[0], v.S[1])
 	}
 }
 
@@ -696,11 +701,13 @@ func preamble() []string {
 		"(assert (forall ((s Str)) (! (=> (= (strlen s) 0) (= s str!empty)) :pattern ((strlen s)))))",
 		"(declare-fun rnd64 (Real) Real)",
 		"(declare-fun rnd32 (Real) Real)",
+		"(define-fun absr ((x Real)) Real (ite (>= x 0.0) x (- x)))",
+		"(define-fun EPS53 () Real (/ 1.0 9007199254740992.0))",
+		"(define-fun TINY () Real (/ 1.0 404804506614621236704990693437834614099113299528284236713802716054860679135990693783920767402874248990374155728633623822779617474771586953734026799881477019843034848553132722728933815484186432682479535356945490137124014966849385397236206711298319112681620113024717539104666829230461005064372655017292012526615415482186989568.0))",
 		"(define-fun trunc ((x Real)) Int (ite (>= x 0.0) (to_int x) (- (to_int (- x)))))",
 		"(declare-fun f2i64 (Int Real) Int)", "(declare-fun f2i32 (Int Real) Int)", "(declare-fun f2i16 (Int Real) Int)", "(declare-fun f2i8 (Int Real) Int)",
 		"(declare-fun f2u64 (Int Real) Int)", "(declare-fun f2u32 (Int Real) Int)", "(declare-fun f2u16 (Int Real) Int)", "(declare-fun f2u8 (Int Real) Int)",
 		"(define-fun MAXF () Real 179769313486231570814527423731704356798070567525844996598917476803157260780028538760589558632766878171540458953514382464234321326889464182768467546703537516986049910576551282076245490090389328944075868508455133942304583236903222948165808559332123348274797826204144723168738177180919299881250404026184124858368.0)",
-		"(define-fun absr ((x Real)) Real (ite (>= x 0.0) x (- x)))",
 		"(define-fun absi ((x Int)) Int (ite (>= x 0) x (- x)))",
 		"(define-fun tdiv ((a Int) (b Int)) Int (ite (>= a 0) (ite (> b 0) (div a b) (- (div a (- b)))) (ite (> b 0) (- (div (- a) b)) (div (- a) (- b)))))",
 		"(define-fun tmod ((a Int) (b Int)) Int (- a (* b (tdiv a b))))",
